@@ -187,6 +187,7 @@ func c11Run(c *core.Ctx, i int64, in c11Input, kinds []int, r *rand.Rand) {
 			d := det()
 			d["goroutines"] = core.Trunc(dump, 3000)
 			c.Violation(sig("goroutine-leak"), fmt.Sprintf("%d goroutine(s) of the library still blocked on a channel after the call returned and %d polls", left, polls), d)
+			c.StopWorker("leaked goroutines stay in this process and would be seen again after every later call")
 			return
 		}
 		c.Inconclusive("library goroutine still runnable after the polls")
